@@ -29,7 +29,14 @@ type rpFunc struct {
 type rpBlock struct{ prim, text, guard string }
 type rpBegin struct{ callee, arg string }
 
+// the transaction constructor of this source tree (see txnCtor), set by genReadPaths before the bodies are scanned
+var rpCtor *txnCtor
+
 func genReadPaths(r *Repo) (string, error) {
+	rpCtor = r.txnCtor()
+	if rpCtor == nil {
+		return "", fmt.Errorf("Router.Txn not found")
+	}
 	funcs := map[string]*rpFunc{}
 	byName := map[string][]*rpFunc{}
 	for rel, f := range r.Files {
@@ -53,6 +60,9 @@ func genReadPaths(r *Repo) (string, error) {
 			}
 			if strings.Contains(rel, "/") {
 				key = rel[:strings.LastIndex(rel, "/")] + ":" + key
+			}
+			if key == rpCtor.key() && key != "Router.Txn" {
+				key = "Router.txnWith" // canonical name of the transaction constructor
 			}
 			fn := &rpFunc{key: key, name: fd.Name.Name, decl: fd, calls: map[string]bool{}}
 			rpScan(r, fn, fd.Body, nil, imports)
@@ -201,6 +211,13 @@ func rpScan(r *Repo, fn *rpFunc, n ast.Node, guards []string, imports map[string
 		switch f := x.Fun.(type) {
 		case *ast.Ident:
 			fn.calls[f.Name] = true
+			if f.Name == rpCtor.name && rpCtor.recv == "" {
+				arg := ""
+				if len(x.Args) > rpCtor.writeIdx {
+					arg = txt(x.Args[rpCtor.writeIdx])
+				}
+				fn.begin = append(fn.begin, rpBegin{"txnWith", arg})
+			}
 		case *ast.SelectorExpr:
 			name := f.Sel.Name
 			if id, ok := f.X.(*ast.Ident); ok && imports[id.Name] && id.Obj == nil {
@@ -218,12 +235,15 @@ func rpScan(r *Repo, fn *rpFunc, n ast.Node, guards []string, imports map[string
 				case "Wait":
 					fn.block = append(fn.block, rpBlock{"condWait", txt(x), guard()})
 				}
-				if name == "Txn" || name == "txnWith" {
-					arg := ""
-					if len(x.Args) > 0 {
-						arg = txt(x.Args[0])
+				if name == "Txn" || name == rpCtor.name {
+					arg, idx, callee := "", 0, name
+					if name == rpCtor.name && name != "Txn" {
+						idx, callee = rpCtor.writeIdx, "txnWith"
 					}
-					fn.begin = append(fn.begin, rpBegin{name, arg})
+					if len(x.Args) > idx {
+						arg = txt(x.Args[idx])
+					}
+					fn.begin = append(fn.begin, rpBegin{callee, arg})
 				}
 			}
 		}
